@@ -137,6 +137,10 @@ func Mix(seed int64, stream string, k int) int64 {
 
 // Eval counts executed cases.
 func (r *Run) Eval(n int) {
+	if ChildRole() != "" {
+		childEmit(childLine{T: "eval", N: int64(n)})
+		return
+	}
 	r.mu.Lock()
 	r.evals += int64(n)
 	r.mu.Unlock()
@@ -144,6 +148,10 @@ func (r *Run) Eval(n int) {
 
 // Distinct records the fingerprint of a non-trivial case.
 func (r *Run) Distinct(fp string) {
+	if ChildRole() != "" {
+		childEmit(childLine{T: "distinct", K: fp})
+		return
+	}
 	r.mu.Lock()
 	if len(r.distinct) < 2_000_000 {
 		r.distinct[fp] = struct{}{}
@@ -161,6 +169,10 @@ func (r *Run) DistinctAdd(fps []string) {
 }
 
 func (r *Run) Count(kind string, n int64) {
+	if ChildRole() != "" {
+		childEmit(childLine{T: "count", K: kind, N: n})
+		return
+	}
 	r.mu.Lock()
 	r.counts[kind] += n
 	r.mu.Unlock()
@@ -173,6 +185,10 @@ func (r *Run) GetCount(kind string) int64 {
 }
 
 func (r *Run) Max(kind string, n int64) {
+	if ChildRole() != "" {
+		childEmit(childLine{T: "max", K: kind, N: n})
+		return
+	}
 	r.mu.Lock()
 	if n > r.counts[kind] {
 		r.counts[kind] = n
@@ -192,6 +208,10 @@ func (r *Run) SetExhaustive(b bool) { r.mu.Lock(); r.exhaustive = b; r.mu.Unlock
 
 // Sample keeps a few actual cases for the evidence file.
 func (r *Run) Sample(v any) {
+	if ChildRole() != "" {
+		childEmit(childLine{T: "sample", V: v})
+		return
+	}
 	r.mu.Lock()
 	if len(r.samples) < r.maxSamples {
 		r.samples = append(r.samples, v)
@@ -201,6 +221,10 @@ func (r *Run) Sample(v any) {
 
 // Inconclusive records a case that could not be judged.
 func (r *Run) Inconclusive(why string) {
+	if ChildRole() != "" {
+		childEmit(childLine{T: "inconclusive", What: why})
+		return
+	}
 	r.mu.Lock()
 	if len(r.inconclusive) < 50 {
 		r.inconclusive = append(r.inconclusive, why)
@@ -213,6 +237,13 @@ func (r *Run) Inconclusive(why string) {
 // call site / history shape; it is what known_findings.jsonl entries match on.
 // Returns true if it was a NEW violation (not a listed finding).
 func (r *Run) Violation(sig, what string, replay any) bool {
+	if ChildRole() != "" {
+		childEmit(childLine{T: "viol", Sig: sig, What: what, Replay: replay})
+		r.mu.Lock()
+		r.violations++
+		r.mu.Unlock()
+		return true
+	}
 	r.mu.Lock()
 	defer r.mu.Unlock()
 	for _, k := range r.known {
@@ -248,6 +279,9 @@ func (r *Run) Violations() int { r.mu.Lock(); defer r.mu.Unlock(); return r.viol
 // Finish writes the evidence file and exits with the verdict.
 // floor: minimum number of distinct non-trivial cases for a conclusive run.
 func (r *Run) Finish(floor int) {
+	if ChildRole() != "" {
+		os.Exit(0)
+	}
 	r.mu.Lock()
 	cov := map[string]any{
 		"evaluations":         r.evals,
